@@ -220,6 +220,7 @@ func TestC15Sessions(t *testing.T) {
 		lc.Cfg.ReusePort = false // the acceptor's policy is used in reactor mode
 		lc.Cfg.RcvBuf, lc.Cfg.SndBuf, lc.Cfg.Ticker = 0, 0, false
 		lc.Cfg.Loops = rapid.SampledFrom([]int{1, 2, 3, 4, 8}).Draw(t, "loops")
+		lc.Cfg.Listeners = rapid.SampledFrom([]int{1, 1, 2, 3}).Draw(t, "listeners") // several addresses (Rotate) share the one acceptor and its policy
 		if lc.Cfg.LB == gnet.SourceAddrHash && rapid.Bool().Draw(t, "unixForHash") {
 			lc.Cfg.Net = "unix"
 		}
